@@ -12,6 +12,7 @@
    defect of the Go code, whose callers cannot produce such a value. *)
 From Coq Require Import ZArith List Bool Lia.
 From Arsenal Require Import Util Bits Gran Tlsf TlsfStep TlsfProps GranInv GranTlsf.
+From Arsenal Require Linear LinearInv LinearStep GranLinear.
 Import ListNotations.
 Open Scope Z_scope.
 
@@ -166,3 +167,78 @@ Proof.
   exists (mkBlk 100 100 false None 2 100 1), (mkBlk 200 100 false None 5 100 1).
   vm_compute. repeat split; auto; try discriminate.
 Qed.
+
+(* ================================================================== the linear algorithm *)
+
+(* Linear half (block model Linear.v; the linear metadata only ever calls AllocationsConflict and
+   does its own page scans): for every power-of-two granularity (no upper bound needed: there is
+   no counter), every block size, every history of allocations at the lower end, at the upper end
+   (double stack) and wrapped around (ring buffer), frees of live handles, user-data changes and
+   Clear — ops_ok: each operation is admissible in the state it is applied to, i.e. alignments are
+   powers of two and Free is called with the handle of a live allocation (LinearStep.op_ok) — two
+   different live items whose types conflict have no byte on a common page.  No restriction on
+   the type values here: every neighbour on the page is compared with the new item directly. *)
+Module Lin.
+Import Linear LinearInv LinearStep GranLinear.
+
+Theorem C09_linear : forall gr size ops,
+  0 <= size -> pow2 gr -> ops_ok (linear_init HVam gr size) ops ->
+  let l := lrun (linear_init HVam gr size) ops in
+  forall x y, In x (live l) -> In y (live l) -> x <> y ->
+    conflict (s_type x) (s_type y) = true ->
+    forall a b, s_off x <= a < s_off x + s_size x -> s_off y <= b < s_off y + s_size y ->
+                a / gr <> b / gr.
+Proof. exact linear_gran. Qed.
+Print Assumptions C09_linear.
+
+Definition spans_of (l : linear) : list (Z * Z * Z) := map (fun b => (s_off b, s_size b, s_type b)) (live l).
+
+Ltac p2 k := exists k; split; [lia|reflexivity].
+
+(* lower and upper (double stack) placements, granularity 1024: the optimal image is pushed from
+   100 to the next page; the second upper item (optimal image) is pushed down from 15964 to 14336
+   because the linear image above it starts on the page where it would have ended *)
+Definition c09_lin_ops1 : list op :=
+  [ OAlloc 100 16 2 0 false 0 (Some 1);
+    OAlloc 50 1 5 0 false 0 (Some 2);
+    OAlloc 300 64 4 0 true 0 (Some 3);
+    OAlloc 100 1 5 0 true 0 (Some 4);
+    OAlloc 10 1 1 0 false 0 (Some 5);
+    OAlloc 10 1 2 0 false 0 (Some 6);
+    OSetUD 1025 (Some 9) ].
+
+Example C09_linear_nonvacuous_double :
+  pow2 1024 /\ ops_ok (linear_init HVam 1024 16384) c09_lin_ops1 /\
+  let l := lrun (linear_init HVam 1024 16384) c09_lin_ops1 in
+  spans_of l = [(0, 100, 2); (1024, 50, 5); (2048, 10, 1); (3072, 10, 2); (16064, 300, 4); (14336, 100, 5)] /\
+  l_mode l = MDouble.
+Proof.
+  split; [p2 10|]. split.
+  - cbn [ops_ok c09_lin_ops1 op_ok]. repeat split; try p2 4; try p2 0; try p2 6.
+  - vm_compute. split; reflexivity.
+Qed.
+
+(* ring buffer, granularity 1024: after the first item is freed the next allocations wrap around to
+   offset 0; the optimal image is pushed from 100 to 1024, the last buffer from 1124 to 2048 (it may
+   share page 2 with the buffer at 3000) *)
+Definition c09_lin_ops2 : list op :=
+  [ OAlloc 3000 16 2 0 false 0 (Some 1);
+    OAlloc 3000 1 2 0 false 0 (Some 2);
+    OAlloc 2000 1 5 0 false 0 (Some 3);
+    OFree 1;
+    OAlloc 100 4 4 0 false 0 (Some 4);
+    OAlloc 100 4 5 0 false 0 (Some 5);
+    OAlloc 900 4 2 0 false 0 (Some 6) ].
+
+Example C09_linear_nonvacuous_ring :
+  ops_ok (linear_init HVam 1024 8192) c09_lin_ops2 /\
+  let l := lrun (linear_init HVam 1024 8192) c09_lin_ops2 in
+  spans_of l = [(3000, 3000, 2); (6144, 2000, 5); (0, 100, 4); (1024, 100, 5); (2048, 900, 2)] /\
+  l_mode l = MRing.
+Proof.
+  split.
+  - cbn [ops_ok c09_lin_ops2 op_ok]. repeat split; try p2 4; try p2 0; try p2 2.
+    vm_compute. eexists. split; [left; reflexivity|reflexivity].
+  - vm_compute. split; reflexivity.
+Qed.
+End Lin.
